@@ -317,7 +317,7 @@ impl Check for C13 {
          account); failing assertions / zero assertions / zero assignments on multi-commodity accounts and residuals in four commodities (error text); price graphs \
          with 2-4 equal-distance chains of different rate and holdings with several unconvertible commodities (balance -X, --historical, primitive eval -X); random \
          price scenarios with holdings in every commodity; posting amounts / assertions / assignments written as expressions in which 2-4 commodities cancel; include trees with globs (primitive flatten, balance); imports whose rewrite rules have several capturing \
-         matchers (CSV and ISO Camt053). With k >= 3 commodities in one printed amount a hash-ordered print differs between two runs with probability >= 5/6, so 6 \
+         matchers (CSV and ISO Camt053); CSV imports whose configuration has several defects at once (2-5 labels missing from the header, three different invalid field templates, three invalid patterns in one rule map: error text). With k >= 3 commodities in one printed amount a hash-ordered print differs between two runs with probability >= 5/6, so 6 \
          runs miss it with probability < 1e-3 per input. Distinct by input text."
             .to_string()
     }
